@@ -27,6 +27,8 @@ class Tracer:
         self.active = False
         self.depth = 0
         self.ops = []          # (kind, path[, path2])
+        self.labels = []       # per operation: HDF5 object class written ("events", "attrs:logs", …)
+        self._label = ""
         self.fail_at = None
         self.kind = "raise"
         self.fired = False
@@ -56,14 +58,17 @@ class Tracer:
                 os._exit(9)
             if kind == "close":
                 self.ops.append(("FAULT",) + paths)
+                self.labels.append(self._label)
                 return True
             self.ops.append(("FAULT",) + paths)
+            self.labels.append(self._label)
             raise OSError(errno.EIO, f"verif: injected I/O error at operation {k} ({kind})")
         self.ops.append((kind,) + paths)
+        self.labels.append(self._label)
         return False
 
     # ------------------------------------------------------------------------------
-    def _wrap(self, owner, name, kind, pathfn):
+    def _wrap(self, owner, name, kind, pathfn, labelfn=None):
         orig = getattr(owner, name)
         tr = self
 
@@ -76,6 +81,12 @@ class Tracer:
                 k, paths = None, None
             if not paths or any(p is None for p in paths):
                 return orig(*a, **kw)
+            tr._label = ""
+            if labelfn is not None:
+                try:
+                    tr._label = labelfn(*a, **kw)
+                except Exception:
+                    tr._label = "?"
             late = tr.hit(k, *paths)
             tr.depth += 1
             try:
@@ -117,23 +128,45 @@ class Tracer:
         self._wrap(h5py.File, "close", "close", close_path)
 
         # -- mutators -------------------------------------------------------------------
+        def top(path):
+            if isinstance(path, bytes):
+                path = path.decode()
+            parts = [x for x in str(path).split("/") if x]
+            return parts[0] if parts else "/"
+
+        def obj_label(self_, *a, **kw):
+            name = a[0] if a else kw.get("name", "")
+            base = self_.name or "/"
+            if isinstance(name, (str, bytes)) and base == "/":
+                return top(name if isinstance(name, str) else name.decode())
+            return top(base)
+
+        def att_label(self_, *a, **kw):
+            return "attrs:" + top(h5py.h5i.get_name(self_._id) or b"/")
+
+        def copy_label(*a, **kw):
+            dst = kw.get("dst_loc", a[2] if len(a) > 2 else None)
+            dname = kw.get("dst_name", a[3] if len(a) > 3 else b"")
+            base = h5py.h5i.get_name(dst) or b"/"
+            return top(base if base not in (b"/", "/") else dname)
+
         obj = lambda self_, *a, **kw: (self._objfile(self_.id),)       # noqa: E731
         for name in ("create_dataset", "create_group", "require_group", "require_dataset",
                      "__setitem__", "__delitem__", "copy", "move", "create_dataset_like",
                      "create_virtual_dataset"):
             if hasattr(h5py.Group, name):
-                self._wrap(h5py.Group, name, "write", obj)
+                self._wrap(h5py.Group, name, "write", obj, obj_label)
         for name in ("__setitem__", "resize", "write_direct", "write_direct_chunk"):
             if hasattr(h5py.Dataset, name):
-                self._wrap(h5py.Dataset, name, "write", obj)
+                self._wrap(h5py.Dataset, name, "write", obj, obj_label)
         att = lambda self_, *a, **kw: (self._objfile(self_._id),)       # noqa: E731
         for name in ("__setitem__", "__delitem__", "create", "modify"):
-            self._wrap(h5py.AttributeManager, name, "write", att)
+            self._wrap(h5py.AttributeManager, name, "write", att, att_label)
 
         def h5o_dst(*a, **kw):
             dst = kw.get("dst_loc", a[2] if len(a) > 2 else None)
             return (self._objfile(dst),)
-        self._wrap(h5py.h5o, "copy", "write", h5o_dst)
+        self._wrap(h5py.h5o, "copy", "write", h5o_dst, copy_label)
 
         # -- renames / removals ---------------------------------------------------------
         two = lambda a, b, *r, **kw: (n(a), n(b))                        # noqa: E731
@@ -157,6 +190,7 @@ class Tracer:
     def start(self, root, fail_at=None, kind="raise"):
         self.root = os.path.abspath(str(root))
         self.ops = []
+        self.labels = []
         self.depth = 0
         self.fail_at = fail_at
         self.kind = kind
